@@ -104,6 +104,10 @@ func newReadOnlySegment(basePath string, baseOffset int64) (ReadOnlySegment, err
 		}
 	}
 
+	if len(ms.idx) < 4 {
+		// A read-only segment always contains at least one entry
+		return nil, errors.Wrapf(codec.ErrDataCorrupted, "no valid entry in segment file %s", ms.c.txnPath)
+	}
 	ms.lastOffset = ms.c.baseOffset + int64(len(ms.idx)/4-1)
 
 	// recover the last crc
